@@ -30,7 +30,7 @@ SEED = 20260926
 PDIM = 2          # free dimension of matrix operands of @
 ITEM_TIMEOUT = {"quick": 100, "thorough": 600}
 REPLAYS_PER_GROUP = 4
-MAX_REPLAYS = 1500
+MAX_REPLAYS = 20000
 
 # ------------------------------------------------------------------------------------------------
 # operation vocabulary
